@@ -638,18 +638,18 @@ def c03(tier):
     c.rule = ("SplStatic is the derivation machine made attribute-directed: a plan phase (global declarations, types before use) and a derive "
               "phase whose productions are guarded by SPL's scoping and typing rules, so every completed behaviour is a well-typed program; "
               "27 fault productions (one per build/semantic message kind) add exactly one violation and bracket the culprit. TLC enumerates "
-              "all valid and all single-fault programs up to the token bound and simulates 140-token ones; the real analysis must give NO "
+              "all valid and all single-fault programs up to the token bound and simulates 140-180-token ones; the real analysis must give NO "
               "diagnostic for valid programs under 4 layouts, exactly the faulted rule's kind on the culprit for faulty ones, and the named "
               "missing-token diagnostic inside the declaration for every required token deleted from a valid program; on the server every "
               "published range lies inside the document.")
     vlib.build_harness()
     exe = vlib.build_server(False)
     seen_rules = {}
-    sets = [("MC_SplStatic_valid", ["missing=1"]), ("MC_SplStatic_faults", [])] if tier == "quick" else \
-           [("MC_SplStatic_valid17", ["missing=1"]), ("MC_SplStatic_valid3", ["missing=1"]), ("MC_SplStatic_faults18", [])]
+    sets = [("MC_SplStatic_valid", ["missing=1"]), ("MC_SplStatic_body", ["missing=1"]), ("MC_SplStatic_faults", [])] if tier == "quick" else \
+           [("MC_SplStatic_valid17", ["missing=1"]), ("MC_SplStatic_valid3", ["missing=1"]), ("MC_SplStatic_body22", ["missing=1"]), ("MC_SplStatic_faults18", [])]
     for cfg, extra in sets:
         res = vlib.tlc("MC_SplStatic", cfg + ".cfg", "c03_" + cfg, timeout=6000, heap="16g")
-        vlib.require_coverage(res, ["PlanType", "PlanProc", "PlanDone", "Expand", "Shift", "Act"])
+        vlib.require_coverage(res, ["PlanProc", "PlanDone", "Expand", "Shift", "Act"] + ([] if "body" in cfg else ["PlanType"]))
         c.add_tlc(res, cfg)
         r = _tag_mode(_fe("static", res["out"], "c03_" + cfg, extra), "static")
         c.add_harness(r, cfg)
@@ -689,10 +689,11 @@ def _features_check(prop, tier, rule, assumptions, layouts):
     c.rule = rule
     vlib.build_harness()
     exe = vlib.build_server(False)
-    sets = [("MC_SplStatic_valid", 4), ("MC_SplStatic_valid3s", 1), ("MC_SplStatic_shadow", 4)] if tier == "quick" else [("MC_SplStatic_valid17", 3), ("MC_SplStatic_valid3", 2), ("MC_SplStatic_shadow", 1)]
+    sets = [("MC_SplStatic_valid", 4), ("MC_SplStatic_valid3s", 1), ("MC_SplStatic_shadow", 4), ("MC_SplStatic_body", 5)] if tier == "quick" \
+        else [("MC_SplStatic_valid17", 3), ("MC_SplStatic_valid3", 2), ("MC_SplStatic_shadow", 1), ("MC_SplStatic_body22", 3)]
     for cfg, stride in sets:
         res = vlib.tlc("MC_SplStatic", cfg + ".cfg", prop.lower() + "_" + cfg, timeout=6000, heap="16g")
-        vlib.require_coverage(res, ["PlanProc", "PlanDone", "Expand", "Shift", "Act"] + ([] if "shadow" in cfg else ["PlanType"]))
+        vlib.require_coverage(res, ["PlanProc", "PlanDone", "Expand", "Shift", "Act"] + ([] if "shadow" in cfg or "body" in cfg else ["PlanType"]))
         c.add_tlc(res, cfg)
         r = _srv("features", res["out"], prop.lower() + "_" + cfg, exe,
                  ["props=" + prop, "layouts=" + layouts, "stride=%d" % stride, "offset=%d" % (vlib.seed() % stride)], timeout=7200)
@@ -700,7 +701,7 @@ def _features_check(prop, tier, rule, assumptions, layouts):
         os.remove(res["out"])
     procs, num = (8, 12) if tier == "quick" else (16, 150)
     res = vlib.tlc_sim_multi("MC_SplStatic", "Sim_SplStatic_valid.cfg", prop.lower() + "_sim", procs, num, 3000, timeout=3000)
-    c.add_tlc(res, "Sim_SplStatic_valid (140-token programs, 3-5 declarations)")
+    c.add_tlc(res, "Sim_SplStatic_valid (180-token programs, 3-5 declarations, statement shapes balanced)")
     r = _srv("features", res["out"], prop.lower() + "_sim", exe, ["props=" + prop, "layouts=" + layouts], timeout=7200)
     c.add_harness(_only_prop(r, prop), "simulated large programs")
     os.remove(res["out"])
